@@ -132,6 +132,9 @@ def _decorate_changes(spec, present, blist, cs):
         return
     a = present[0]
     nb = _nbrs(blist, a)
+    # bond stereo changes only on bonds without a reaction role (a 'broken' descriptor on a bond that is absent from the
+    # reactant is not a state the reaction API can decompose; outside every property)
+    plain = [(i, j) for (i, j, role, _) in spec["bonds"] if role is None]
     tp, tm, tn = _tet(a, nb, 1), _tet(a, nb, -1), _tet(a, nb, None)
     sp = ("SP", _pad([a] + nb, 5), 0)
     if cs == 1:
@@ -144,12 +147,13 @@ def _decorate_changes(spec, present, blist, cs):
         spec["achg"].append({"fleeting": sp})
     elif cs == 5:
         spec["achg"].append({"broken": tp, "fleeting": tn, "formed": sp})
-    elif cs == 6 and blist:
-        i, j = blist[0]
+    elif cs == 6 and plain:
+        i, j = plain[0]
         spec["bchg"].append({"formed": _pb("PB", i, j, blist, 0)})
-    elif cs == 7 and blist:
-        i, j = blist[0]
-        spec["bchg"].append({"broken": _pb("Atrop", i, j, blist, 1), "fleeting": _pb("PB", i, j, blist, 0)})
+    elif cs == 7:
+        if plain:
+            i, j = plain[0]
+            spec["bchg"].append({"broken": _pb("Atrop", i, j, blist, 1), "fleeting": _pb("PB", i, j, blist, 0)})
         if len(present) > 1:
             c = present[1]
             spec["achg"].append({"formed": _tet(c, _nbrs(blist, c), 1)})
